@@ -290,6 +290,18 @@ def slot_memo_findings(fn_node: ast.AST, deps_hook=None) -> list:
                 elif any(_attr_read(x) == slot for x in ast.walk(r.value)):
                     answers.append(r)
                     direct_ret = True
+        # ... or (a memo helper folded into its caller) the bound local handed on to another local: `result = cached[1]`
+        for r in ast.walk(fn_node):
+            if isinstance(r, ast.Assign) and len(r.targets) == 1 and isinstance(r.targets[0], (ast.Name, ast.Tuple)):
+                tnames = {x.id for x in ast.walk(r.targets[0]) if isinstance(x, ast.Name)}
+                if tnames & set(holders):
+                    continue
+                v_ = r.value
+                core = v_
+                while isinstance(core, ast.Subscript):
+                    core = core.value
+                if isinstance(core, ast.Name) and core.id in holders:
+                    answers.append(r)
         if not answers:
             continue
         # a memo tests whether the slot is filled (a setter that returns the previous value does not)
